@@ -290,6 +290,31 @@ impl PartialOrd for Uint128 {
     }
 }
 
+impl vstd::std_specs::cmp::OrdSpecImpl for Uint128 {
+    open spec fn obeys_cmp_spec() -> bool { true }
+    open spec fn cmp_spec(&self, other: &Uint128) -> core::cmp::Ordering {
+        if self.0 < other.0 { core::cmp::Ordering::Less }
+        else if self.0 == other.0 { core::cmp::Ordering::Equal }
+        else { core::cmp::Ordering::Greater }
+    }
+}
+impl Ord for Uint128 {
+    fn cmp(&self, other: &Uint128) -> (r: core::cmp::Ordering) {
+        if self.0 < other.0 { core::cmp::Ordering::Less }
+        else if self.0 == other.0 { core::cmp::Ordering::Equal }
+        else { core::cmp::Ordering::Greater }
+    }
+}
+// core::cmp::min / max on any totally ordered type whose ordering has a spec (std: `min` returns the first argument on a tie, `max` the second)
+#[verifier::allow(undeclared_external_trait)]
+pub assume_specification<T> [std::cmp::min] (a: T, b: T) -> (r: T)
+    where T: std::cmp::Ord + std::marker::Destruct,
+    ensures T::obeys_cmp_spec() ==> r == (if (a.cmp_spec(&b) is Greater) { b } else { a });
+#[verifier::allow(undeclared_external_trait)]
+pub assume_specification<T> [std::cmp::max] (a: T, b: T) -> (r: T)
+    where T: std::cmp::Ord + std::marker::Destruct,
+    ensures T::obeys_cmp_spec() ==> r == (if (a.cmp_spec(&b) is Greater) { a } else { b });
+
 impl From<u128> for Uint128 {
     #[verifier::external_body]
     fn from(v: u128) -> (r: Uint128) { Uint128(v) }
